@@ -641,6 +641,11 @@ func aliasStoreRule(w *World, r *Result, only func(rel string) bool) int {
 				if !isField || owner == nil || built(owner) {
 					continue
 				}
+				// a method of the node arranging its own slice (the value sort of an enum's members, run while the
+				// table of enums is built) is the node's own business
+				if fi.Decl.Recv != nil && len(fi.Decl.Recv.List) == 1 && len(fi.Decl.Recv.List[0].Names) == 1 && info.Defs[fi.Decl.Recv.List[0].Names[0]] == owner {
+					continue
+				}
 				n++
 				cons := normLocals(info, l)
 				why := "the element is stored into a slice of an analysis node that this function did not build"
